@@ -196,6 +196,7 @@ Definition bstep (s : bsys) (l : blabel) : bsys * lout :=
               (* a finished bridge is dropped, and its stream with it *)
               let finished := match res with BReady _ _ | BErr _ => true | _ => false end in
               let f := if finished then fst (do_drop_stream f (bi_sid b)) else f in
+              let f := settle f in
               let r := match res with
                        | BReady n m => [0; n; m]
                        | BPending => [1]
